@@ -8,7 +8,7 @@
    theorems.json). *)
 From Coq Require Import SpecFloat.
 Require Import Base Value Float PrintOptions ParseOptions Reader Scan Num Parser DatumProofs DepthProofs.
-Require Import ReaderProofs TokenProofs RoundtripProofs TriviaProofs ElispRoundtrip ElispTrivia PositionProofs SpanProofs.
+Require Import ReaderProofs TokenProofs RoundtripProofs TriviaProofs ElispRoundtrip ElispTrivia PositionProofs SpanProofs FuelProofs FloatFuel.
 
 (* value_iter().next() and Iterator for Parser are next_value().transpose(),
    datum_iter().next() is next_datum().transpose(): in the model these are
@@ -193,6 +193,29 @@ Proof.
   destruct (next_datum ro alpha fast std_parse fuel s) as [[[d|]|e] s1]; cbn [fst snd option_map]; exact H.
 Qed.
 Print Assumptions C12_items_consume_input.
+
+(* Iteration terminates. Collecting up to n items with value_iter / datum_iter /
+   Iterator for Parser from any input, with fuel_for's fuel: no item is the
+   model's own fuel error, and at most |input| items are values - each value
+   returned is paid for with at least one delivered event, so a loop that
+   collects until None or until an error ends after at most |input| + 1 steps
+   (every option set, source kind, input; errors included in the items). *)
+Theorem C12_iteration_terminates : forall ro alpha fast std_parse k inp n,
+  Forall (fun r => r <> PErr (XErr EFuel)) (iterate_values ro alpha fast std_parse (fuel_for inp) n (init_state k inp)) /\
+  Forall (fun r => r <> PErr (XErr EFuel)) (iterate_datums ro alpha fast std_parse (fuel_for inp) n (init_state k inp)) /\
+  (length (filter is_okb (iterate_values ro alpha fast std_parse (fuel_for inp) n (init_state k inp))) <= length inp)%nat /\
+  (length (filter is_okb (iterate_datums ro alpha fast std_parse (fuel_for inp) n (init_state k inp))) <= length inp)%nat.
+Proof. exact total_iterate. Qed.
+Print Assumptions C12_iteration_terminates.
+
+(* and no call in any history of next_value / next_datum / expect_* calls runs out of fuel *)
+Theorem C12_histories_total : forall ro alpha fast std_parse k inp cs,
+  Forall call_ok (run_history ro alpha fast std_parse (fuel_for inp) cs (init_state k inp)).
+Proof.
+  intros ro alpha fast std_parse k inp cs.
+  exact (C12_histories ro alpha fast std_parse (fuel_for inp) k inp cs (total_history ro alpha fast std_parse k inp cs)).
+Qed.
+Print Assumptions C12_histories_total.
 
 (* An unexpected closer is consumed when it is reported, so iteration moves on. *)
 Example C12_closer_consumed :
